@@ -284,7 +284,9 @@ PROPS = {
                 "truncated within / to / below the limits, extended, class, TTL). Oracle: an independent RFC 8945 signer/verifier over raw octets (own parser, own "
                 "digest construction; only the HMAC primitive is ring's, and that is recomputed offline with Python hmac/hashlib for every logged MAC): the "
                 "library accepts iff the reference does, MACs are equal octet for octet, the error class is the RFC's for structural edits, verified messages "
-                "equal the pre-signing octets, no panic (the error response is built for every server-side error); distinct = (algorithm, truncation, "
+                "equal the pre-signing octets, no panic (the error response is built for every server-side error); the client-side transport wrapper net::client::tsig::Connection against the reference acting as a server "
+                "(the request as it leaves the wrapper verifies by the reference; an honestly signed answer reaches the caller as made, one with a flipped "
+                "bit, another secret, a time outside the window, no TSIG, or a MAC computed without the request MAC is refused); distinct = (algorithm, truncation, "
                 "fudge class, clock side, outcome, size class) resp. (sequence length class, gap, tail)",
         "assumptions": ["'returns the message to its pre-signing octets' is judged on the header and everything up to the last record: Message::remove_last_additional "
                         "only lowers ARCOUNT, the TSIG RR's octets stay behind the last record where no section reaches them",
